@@ -357,6 +357,20 @@ def gvf(kt, f, vocab=('a', 'b', 'zz')):
         return (f, 1)
 
 
+def untraced():
+    """context manager: run a block CONCRETELY even under CrossHair's tracer.  Needed where the subject is a
+    functools.lru_cache memo: CrossHair deliberately bypasses lru_cache caches while tracing, so a stale-memo defect would
+    be invisible; arguments must be concrete (selectors concretised by comparison chains)."""
+    try:
+        from crosshair.tracers import NoTracing, is_tracing
+        if is_tracing():
+            return NoTracing()
+    except Exception:
+        pass
+    import contextlib
+    return contextlib.nullcontext()
+
+
 def crosshair_exc(e):
     return (type(e).__module__ or '').split('.')[0] in ('crosshair', 'z3')
 
